@@ -154,7 +154,9 @@ def gen_can_desc(rng, mode):
             if mode == "aligned":
                 t = rng.choice([("u", 8), ("u", 16), ("u", 32), ("i", 8), ("i", 16), ("i", 32), ("f32",)])
             else:
-                t = fixed_type(rng, 1, enames, prev if rng.random() < 0.5 else [])
+                # small nested arrays now and then (elements of an array of arrays are unrolled to leaves f_i_j)
+                t = fixed_type(rng, 1, enames, prev if rng.random() < 0.5 else []) if rng.random() < 0.85 else \
+                    ("arr", ("arr", rng.choice([("u", 4), ("u", 8), ("i", 6), ("u", 1)]), 2), rng.choice([1, 2]))
             w = static_width(d, t)
             if w is None or total + w > budget:
                 if mode == "edge" and rng.random() < 0.5 and w is not None:
@@ -200,6 +202,11 @@ def gen_can_desc(rng, mode):
                                 rel[muxed[0]] = mux[0]
                                 blocks.append(f'    signal {muxed[0]} {{ mux_count: {rng.randint(1, 4)}, mux_signal: "{mux[0]}", }},')
                                 break
+                # signal blocks on array fields (one or more dimensions): the options belong to every unrolled element
+                arrs = [f for f in fs if f[2][0] == "arr" and not any(b.startswith(f"    signal {f[0]} ") for b in blocks)]
+                for f in arrs:
+                    if scal and rng.random() < 0.4 and mode != "aligned":
+                        blocks.append(f'    signal {f[0]} {{ mux_count: {rng.randint(1, 4)}, mux_signal: "{rng.choice(scal)[0]}", }},')
                 alias = f"as {name}x{k}" if (k or rng.random() < 0.3) else ""  # also structs bound under an alias only
                 bus = "" if rng.random() < 0.5 else f'    bus: "{rng.choice(["b1", "b2", "b3"])}",\n'
                 dev = "" if rng.random() < 0.6 else f'    device: "{rng.choice(["ecu", "bms"])}",\n'
